@@ -765,6 +765,24 @@ fn graphs(c: &mut Cat, seed: u64, n_graphs: u64) {
             c.rep.violation("alloc|graph::process|steady_state_wide_fan_in", format!("Graph: one Sum node with {} incoming edges from {} nodes, Processor::with_capacity({}): after the first call, 4 more identical calls made {} allocations / {} reallocations / {} frees", w + 1, w, w + 1, d.allocs, d.reallocs, d.deallocs), format!("entry=graphW:{}", w));
         }
         c.rep.nontrivial(vmon::hash_combine(0x77, w as u64));
+        // two sinks of very different fan-in on the same graph, rendered alternately by the same
+        // processor: once each has been rendered, alternating between them must not touch the heap
+        let narrow = g.add_node(NodeData::new1(BoxedNode::new(Sum)));
+        g.add_edge(ids[1], narrow, ());
+        g.add_edge(ids[2], narrow, ());
+        p.process(&mut g, narrow);
+        p.process(&mut g, ids[w]);
+        p.process(&mut g, narrow);
+        let before = alloc::snap();
+        for _ in 0..4 {
+            p.process(&mut g, ids[w]);
+            p.process(&mut g, narrow);
+        }
+        let d = alloc::snap().since(&before);
+        c.rep.eval(8);
+        if !d.is_zero_traffic() {
+            c.rep.violation("alloc|graph::process|steady_state_alternating_wide_and_narrow_sinks", format!("Graph: a Sum node with {} incoming edges and one with 2 on the same graph, each rendered before: 4 more alternations made {} allocations / {} reallocations / {} frees", w + 1, d.allocs, d.reallocs, d.deallocs), format!("entry=graphW2:{}", w));
+        }
     }
     let mut rng = Rng::derive(seed, &[77]);
     for gi in 0..n_graphs {
